@@ -170,5 +170,11 @@ def run(repo, check):
     for f in r6.findings:
         f.rule = 'C10.R6'
     check.add(r6)
+    from sa.rules import c01, c02
+    from sa.rules.common import share
+    share(check, repo, c02.rule_r1, 'C10.R7', 'encoding the reduced message: what the encoder writes is what the decoder reads (shared with C02.R1)', args=(check.tier,))
+    share(check, repo, c02.rule_r2, 'C10.R8', 'encoding the reduced message: round before int (shared with C02.R2)')
+    share(check, repo, c02.rule_r3, 'C10.R9', 'encoding the reduced message: missing = all ones of the width written (shared with C02.R3)')
+    share(check, repo, c01.rule_r7, 'C10.R10', 'missing detection when the reduced message is read back (shared with C01.R7)')
     check.assumptions = ['the values of a decoded message are the rows of decoded_values_all_subsets (C01/C03); re-compression of the reduced columns is C05',
                          'validity of the re-encoded bytes for a particular message is a runtime fact']
